@@ -877,7 +877,7 @@ func ensurePathExists(pd *container, path string, options *ApplyOptions) error {
 			if arrIndex, err = strconv.Atoi(part); err == nil {
 				pa, ok := doc.(*partialArray)
 
-				if ok && arrIndex >= len(pa.nodes)+1 {
+				if ok && pa != nil && arrIndex >= len(pa.nodes)+1 {
 					// Pad the array with null values up to the required index.
 					for i := len(pa.nodes); i <= arrIndex-1; i++ {
 						doc.add(strconv.Itoa(i), newLazyNode(newRawMessage(rawJSONNull)), options)
